@@ -49,7 +49,7 @@ MAXELE = {'AK1': 3, 'AK2': 3, 'AK3': 4, 'IK3': 4, 'AK4': 4, 'IK4': 4, 'AK5': 6, 
 def tier_config(tier):
     if tier == 'thorough':
         return {'runs': 30000, 'wall': 820, 'det_probe': 4}
-    return {'runs': 900, 'wall': 110, 'det_probe': 3}
+    return {'runs': 3000, 'wall': 150, 'det_probe': 3}
 
 
 def generate(rng, tier, run, seed=0):
